@@ -25,8 +25,8 @@ def slice_abs(A, s, e):
     return B
 
 
-def ev_find(pp, tid, T, Q, ignore, via):
-    t, q = anngen.build(pp, T), anngen.build(pp, Q)
+def ev_find(pp, tid, T, Q, ignore, via, objs=None):
+    t, q = objs if objs is not None else (anngen.build(pp, T), anngen.build(pp, Q))
     if via == "str":
         f = lambda: pp.find_subsequence_indices(anngen.render(T), anngen.render(Q), ignore_mods=ignore)
     else:
@@ -95,8 +95,10 @@ def run(tier, seed, rep):
             elif r_ < 0.5:
                 Q["seq"][rnd.randrange(len(Q["seq"]))] = rnd.choice("AKP")
             subs.append(Q)
-            for ignore in (False, True):
-                evs.append(ev_find(pp, f"m{j}.{len(evs)}", T, Q, ignore, "ann" if rnd.random() < 0.7 else "str"))
+            # the same two annotation objects serve the search that ignores modifications and then the one that does not
+            objs = (anngen.build(pp, T), anngen.build(pp, Q))
+            for ignore in (True, False):
+                evs.append(ev_find(pp, f"m{j}.{len(evs)}", T, Q, ignore, "ann" if rnd.random() < 0.7 else "str", objs))
             o, r2 = call(lambda: pp.is_subsequence(anngen.build(pp, Q), anngen.build(pp, T), order=True))
             evs.append({"tid": f"m{j}.{len(evs)}", "k": "c16", "op": "ordered", "T": T, "Q": Q, "out": o,
                         "res": bool(r2) if o == "ret" else False})
@@ -136,6 +138,21 @@ def run(tier, seed, rep):
                         m_["v"] = "f:" + m_["v"][2:] + ".0"
         o, r2 = call(lambda: pp.is_subsequence(anngen.build(pp, Q2), anngen.build(pp, T2), order=False))
         evs.append({"tid": f"m{j}.{len(evs)}", "k": "c16", "op": "unordered", "T": T2, "Q": Q2, "out": o,
+                    "res": bool(r2) if o == "ret" else False})
+        # ... and with decorations written without square brackets (a global isotope label, a labile modification), given
+        # as strings: the residues of the query are still residues of the target
+        T3 = anngen.annotation(rnd, 1, 8, alphabet="PEK", density=0.3,
+                               p={k: 0 for k in ("static", "unknown", "nterm", "cterm", "interval", "charge")} |
+                                 {"labile": 0.4, "isotope": 0.5})
+        n3 = len(T3["seq"])
+        idx3 = rnd.sample(range(n3), rnd.randint(1, n3))
+        Q3 = anngen.empty([T3["seq"][p_] for p_ in idx3])
+        imap3 = {e["i"]: e["mods"] for e in T3["internal"]}
+        Q3["internal"] = [{"i": qi, "mods": copy.deepcopy(imap3[p_])} for qi, p_ in enumerate(idx3) if p_ in imap3]
+        if rnd.random() < 0.4:
+            Q3["isotope"] = copy.deepcopy(T3["isotope"])
+        o, r2 = call(lambda: pp.is_subsequence(anngen.render(Q3), anngen.render(T3), order=False))
+        evs.append({"tid": f"m{j}.{len(evs)}", "k": "c16", "op": "unordered", "T": T3, "Q": Q3, "out": o,
                     "res": bool(r2) if o == "ret" else False})
     res = core.validate_traces("Trace_Search", evs, "C16")
     rep.add_trace("modified_targets", evs, res,
